@@ -32,7 +32,8 @@ RULE = ("job = seed -> scenario with version *ranges* on both sides (so that "
         ' Also: ticket-issuing servers with flips aimed at the clear-text RFC 5077 NewSessionTicket (client must hold exactly what the server issued), and the TLS 1.1 sentinel of servers capped at TLS 1.2.'
         ' Injected warnings include half an alert (one byte); after both completed the sender of the attacked direction closes and its peer must read a plain end of stream; the sentinel must be ABSENT when the server negotiated its own maximum.'
         " Alert-write faults: an endpoint's transport fails (timeout / EPIPE / reset) exactly while it writes a fatal alert - a detected tamper must not turn into a completed handshake.  Sweep family: EVERY byte of the plaintext handshake records of fixed flows (TLS 1.3 full / HelloRetryRequest, TLS 1.2 resumption; thorough: + tickets) is flipped once; both ends completing on transcripts that differ is a violation (transcripts_differ)."
-        ' Resumption flows may offer a session that dates from when the client only spoke TLS 1.2 (both ends meanwhile TLS 1.3 capable): the resumed ServerHello must carry the sentinel too.')
+        ' Resumption flows may offer a session that dates from when the client only spoke TLS 1.2 (both ends meanwhile TLS 1.3 capable): the resumed ServerHello must carry the sentinel too.'
+        ' Attack hrr_group (HelloRetryRequest asking for another supported group).  Poisoning oracle: the attacked connection uses settings objects with application lifetime; a later untouched connection with the same objects must negotiate like the baseline (family poison enumerates every structured attack on three flows).')
 LEVEL_TEXT = ("Seeded fault search over the plaintext part of every flight "
               "(all byte positions are reachable; quick samples them, "
               "thorough covers them densely) and over structured downgrade "
@@ -45,7 +46,7 @@ CHUNK = 8
 ATTACKS = ["bitflip", "drop", "dup", "swap", "strip13", "lower_version",
            "restrict_suites", "reorder_suites", "strip_ext", "session_id",
            "sh_suite", "sh_version", "sh_strip_ext", "inject_warning",
-           "inject_ccs", "flip_encrypted", "fallback"]
+           "inject_ccs", "flip_encrypted", "fallback", "hrr_group"]
 PROBES = ATTACKS + ["both_complete_same", "sentinel_seen",
                     "client_aborted_on_sentinel", "fallback_refused",
                     "resumption", "hrr", "tls13_base", "tls12_base",
@@ -53,6 +54,7 @@ PROBES = ATTACKS + ["both_complete_same", "sentinel_seen",
                     "close_after_attack", "alert_write_fault",
                     "sweep_tls13_cert", "sweep_tls13_hrr",
                     "sweep_tls12_resume_id", "resume_after_client_upgrade",
+                    "poison_checked",
                     "sentinel_tls12_server"]
 COMPONENTS_REAL = ["tlslite handshakes (transcript hashing, Finished / "
                    "binder checks, downgrade sentinel, FALLBACK_SCSV)"]
@@ -117,8 +119,22 @@ def plan(tier, base_seed):
     for j in jobs[:3]:
         j["keep"] = True
     sw = sweep_jobs(tier, base_seed)
+    # every structured attack on the non-resumption flows, followed by an
+    # untouched connection that uses the same settings objects
+    po = []
+    for name, pre in SWEEP[:2] + [("tls12_cert", {"cfg.hi": [1],
+                                                  "cfg.fl": [0]})]:
+        for ki, kind in enumerate(ATTACKS):
+            if kind in ("bitflip", "fallback", "flip_encrypted"):
+                continue
+            for alt in range(5 if kind == "hrr_group" else 2):
+                p = dict(pre)
+                p.update({"a.kind": [ki], "a.poison": [1], "a.group": [alt],
+                          "a.ext": [alt], "a.suite": [alt], "a.ver": [alt]})
+                po.append({"seed": base_seed * 1000003 + 800000 + len(po),
+                           "fam": "poison", "flow": name, "preset": p})
     # the sweep first: it is an enumeration, not a sample
-    return jobs[:3] + sw + jobs[3:]
+    return jobs[:3] + sw + po + jobs[3:]
 
 
 def draw_scenario(ch):
@@ -233,6 +249,18 @@ def rewrite_hello(kind, body, ch, info):
         if not alts:
             return None
         m.cipher_suite = alts[ch.draw(len(alts), "a.suite")]
+    elif kind == "hrr_group":
+        # HelloRetryRequest asking for another group the client supports
+        raw = bytearray(m.write())
+        k = bytes(raw).find(b"\x00\x33\x00\x02")
+        if k < 0 or bytes(m.random[:4]) != bytes.fromhex("cf21ad74"):
+            return None
+        cur = int.from_bytes(raw[k + 4:k + 6], "big")
+        alts = [g for g in (0x0100, 0x0017, 0x0018, 0x001d, 0x0101)
+                if g != cur]
+        raw[k + 4:k + 6] = alts[ch.draw(len(alts), "a.group")].to_bytes(
+            2, "big")
+        return bytes(raw)
     elif kind == "sh_version":
         cur = tuple(m.server_version)
         alts = [v for v in [(3, 0), (3, 1), (3, 2), (3, 3)] if v != cur]
@@ -246,9 +274,11 @@ def rewrite_hello(kind, body, ch, info):
 
 
 def execute(seed, sc, chooser, attack, session=None, cache=None, tag="",
-            awf=None):
+            awf=None, shared=None):
     sim = nodes.new_run(seed, chooser=chooser, max_steps=100000,
                         sched="first")
+    if shared is not None:
+        sim.settings_objs = shared
     pair = nodes.Pair(sim, sc, policy="ideal",
                       names=("c" + tag, "s" + tag))
     m = mitm.RecordMitm(pair.link, [], sim.stats)
@@ -386,7 +416,8 @@ def run(job, streams=None):
                               "mask": 1})
             desc.update(dir=d, idx=idx)
         else:
-            d = "s2c" if kind.startswith("sh_") else "c2s"
+            d = "s2c" if kind.startswith("sh_") or kind == "hrr_group" \
+                else "c2s"
             orig = m.on_record
 
             def on_record(dd, idx_, rec):
@@ -409,9 +440,13 @@ def run(job, streams=None):
 
     awf = [None, None, None, "timeout", "epipe", "reset", "timeout"][
         ch.draw(7, "a.awf")]
+    poison = not sc.get("resume") and ch.draw(3, "a.poison") == 1
+    shared = (nodes.make_settings(sc["cset"]),
+              nodes.make_settings(sc["sset"])) if poison else None
     sim, pair, m, oc, os_, st, tc, ts = execute(seed, sc, ch, attack,
                                                 session=session2,
-                                                cache=cache, awf=awf)
+                                                cache=cache, awf=awf,
+                                                shared=shared)
     fired = list(m.fired)
     if awf and any(t_.fired for t_ in pair.awf):
         probes["alert_write_fault"] = 1
@@ -494,6 +529,27 @@ def run(job, streams=None):
               (desc["pos"] - 5, desc["dir"], desc["idx"], body_[0]))
         if fired and not viol:
             probes["both_complete_same"] = 1
+    # ---- the attacked connection must not leave anything behind in the
+    # objects an application keeps across connections: the next, untouched
+    # connection with the same settings objects negotiates like the baseline
+    if poison and m.fired:
+        r2 = execute(seed + 5, sc, kernel.Chooser(streams={}), None,
+                     tag="2", shared=shared)
+        probes["poison_checked"] = 1
+        if r2[3].kind == "ok" and r2[4].kind == "ok":
+            v2 = views.view(r2[1].c.conn)
+            for f in ("version", "suite", "group", "ems", "etm"):
+                if v2.get(f) != base_c.get(f):
+                    v("poisoned_settings", "%s|%s" % (kind, f),
+                      "after an attacked connection a later, untouched "
+                      "connection using the same HandshakeSettings objects "
+                      "negotiated %s=%r; with fresh objects it is %r" %
+                      (f, v2.get(f), base_c.get(f)))
+        else:
+            v("poisoned_settings", "%s|failed" % kind,
+              "after an attacked connection a later, untouched connection "
+              "with the same HandshakeSettings objects failed: %r %r" %
+              (r2[3].exc, r2[4].exc))
     # ---- sentinel sub-oracle
     obs = observe.observe(pair, tc, ts)
     smax = tuple(sc["sset"]["maxVersion"])
